@@ -485,6 +485,11 @@ func e4Run(c e4Case) (res *e4Result) {
 			log.add(0, "HANDLE", nil, fmt.Sprintf("handler=%d", s.Extra))
 		case "sleep":
 			time.Sleep(time.Duration(s.Extra) * time.Microsecond)
+		case "sleepBase":
+			// relative to the reconnect wait, so that the next step lands around the moment of the redial
+			if dur := base + time.Duration(s.Extra)*time.Microsecond; dur > 0 {
+				time.Sleep(dur)
+			}
 		case "yield":
 			runtime.Gosched()
 		case "sample":
@@ -677,7 +682,7 @@ func e4GenSteps(rt *rapid.T, o e4GenOpts) []e4Step {
 				if !held {
 					steps = append(steps, e4Step{Kind: "cutNow"})
 					if r.Extra > 0 {
-						steps = append(steps, e4Step{Kind: "sleep", Extra: r.Extra * 5})
+						steps = append(steps, e4Step{Kind: "sleepBase", Extra: r.Extra*2 - 100})
 					}
 				}
 			case 5:
